@@ -104,8 +104,11 @@ def gen(seed: int, tier: str) -> dict[str, Any]:
             if rng.random() < 0.15:
                 # the registry changes from inside the dispatch (a device_updated_cb / process hook removing or adding a
                 # device): devices registered throughout must still each process the telegram once, in order
-                ops[-1]["act"] = {"by": rng.randrange(nd), "a": rng.choice(["remove_self", "remove", "add"]),
-                                  "j": rng.randrange(nd)}
+                ops[-1]["act"] = {"by": rng.randrange(nd), "a": rng.choice(["remove_self", "remove", "add", "nested", "nested"]),
+                                  "j": rng.randrange(nd),
+                                  # "nested": that device's hook hands another telegram (to this address) to the registry
+                                  # while the outer one is still being dispatched
+                                  "addr": rng.choice(pool)}
         elif r < 0.65:
             ops.append({"t": round(t, 6), "op": "add", "i": rng.randrange(nd)})
         elif r < 0.85:
@@ -196,6 +199,16 @@ def run(plan: dict[str, Any]) -> dict[str, Any]:
                     act = acts.pop(id(tg), None)
                     if act is not None and act["by"] != i:
                         acts[id(tg)] = act
+                    elif act is not None and act["a"] == "nested":
+                        a2 = act["addr"]
+                        tg2 = Telegram(destination_address=InternalGroupAddress(a2) if isinstance(a2, str) else GroupAddress(a2),
+                                       payload=GroupValueWrite(DPTBinary(1)), direction=TelegramDirection.INCOMING)
+                        R.extra_faults["nested_dispatch_from_a_device_hook"] += 1
+                        rec_for(tg2)
+                        try:
+                            xknx.devices.process(tg2)
+                        except Exception:  # pylint: disable=broad-except
+                            pass
                     elif act is not None:
                         j = i if act["a"] == "remove_self" else act["j"]
                         try:
